@@ -11,8 +11,8 @@ from . import gen
 class LC:
     def __init__(self, job, tid, aid):
         self.job, self.tid, self.aid = job, tid, aid
-        self.n = lanes(tid, aid)
-        self.w = TYPES[tid][2]
+        self.n = lanes(tid, aid) if tid else 0
+        self.w = TYPES[tid][2] if tid else 0
 
     def loc(self, name):
         ln = "L_" + name
@@ -108,7 +108,29 @@ def lgamma_float_other(C):
     ]
 
 
-SPECS = {"tgamma_other": tgamma_other, "lgamma_impl<double>::other": lgamma_double_other, "lgamma_impl<float>::other": lgamma_float_other}
+def ipow(C):
+    """square-and-multiply: the exponent b is halved (toward zero) in every iteration and the loop is left when it reaches 0"""
+    ln = "L_b"
+    if ln not in C.job["locals"]:
+        raise Infra("loop contract refers to local variable 'b' which ipow no longer has")
+    ct = C.job["locals"][ln]
+    W = {"u8": 8, "u16": 16, "u32": 32, "u64": 64}.get(ct)
+    if not W:
+        raise Infra("ipow: exponent of unexpected type " + ct)
+    m = __import__("re").search(r"ipow<.*, (unsigned )?(char|short|int|long|long long)>\(", C.job["target"]["demangled"])
+    if not m:
+        raise Infra("ipow: cannot read the exponent type from " + C.job["target"]["demangled"][:120])
+    signed = not m.group(1)
+    if signed:
+        mag = "((s%d)L_b < 0 ? (u64)0 - (u64)(s64)(s%d)L_b : (u64)L_b)" % (W, W)
+        top = "((u64)1 << %d)" % (W - 1)
+    else:
+        mag = "((u64)L_b)"
+        top = "(u64)0x%xull" % ((1 << W) - 1)
+    return [dict(inv=[], measure=None, raw_measure=mag, raw_inv=["ghost_it0 >= 0 && ghost_it0 <= %d" % (W - 1), "%s <= (%s >> ghost_it0)" % (mag, top)], bound=W)]
+
+
+SPECS = {"ipow": ipow, "tgamma_other": tgamma_other, "lgamma_impl<double>::other": lgamma_double_other, "lgamma_impl<float>::other": lgamma_float_other}
 
 
 def contracts(label, job, tid, aid):
@@ -122,9 +144,13 @@ def contracts(label, job, tid, aid):
         if k >= len(specs):
             continue        # a loop without a contract stays a loop: its unwinding assertion is the failing obligation
         sp = specs[k]
-        ms = vmax(sp["measure"])
         B = sp["bound"]
-        inv = list(sp["inv"]) + ["ghost_it%d >= 0 && ghost_it%d <= %d && (%s) <= %d - ghost_it%d" % (k, k, B, ms, B, k)]
+        if sp.get("raw_measure"):
+            ms = sp["raw_measure"]
+            inv = list(sp["inv"]) + list(sp["raw_inv"])
+        else:
+            ms = vmax(sp["measure"])
+            inv = list(sp["inv"]) + ["ghost_it%d >= 0 && ghost_it%d <= %d && (%s) <= %d - ghost_it%d" % (k, k, B, ms, B, k)]
         # variables only passed by const reference inside the loop are not assigned (a wrong entry here fails the loop's assigns check)
         asg = [a for a in L["assigned"] if a not in ["L_" + c for c in sp.get("const", [])]]
         s = "#define LOOP_CONTRACT_%d \\\n  __CPROVER_assigns(%s) \\\n" % (k, ", ".join(asg + ["ghost_it%d" % k]))
